@@ -425,3 +425,53 @@ Definition load (d : dict) : result model :=
        end ;;
   load_parameters m params.
 End WithTorch.
+
+(** ** Well-formed models: what a constructor followed by [initialize] / [fit] / [load_parameters] guarantees,
+    minus the three things the code does NOT guarantee (instance name = kind, declared shapes, float32 data),
+    which appear as separate hypotheses in the theorems. *)
+
+(** the observation models a reload would configure from the saved [obs_models] entry *)
+Definition reload_obs (k : mkind) (d s : Z) (obs : list obsk) : result (list obsk) :=
+  o <- obs_of_kw (Some (JObj (obs_dict obs))) "gaussian-diagonal" (Some d) ;;
+  if mkind_eqb k Joint then joint_obs (Some d) (Some s) o else Ok o.
+
+Fixpoint params_fit (decl : list (string * list nat)) (ps : list (string * tensor)) : Prop :=
+  match decl, ps with
+  | [], [] => True
+  | (n, sh) :: dr, (n', t) :: pr =>
+      n = n' /\ List.length (t_data t) = prod (t_shape t) /\ prod (t_shape t) = prod sh /\ params_fit dr pr
+  | _, _ => False
+  end.
+
+Definition stateful_kind (k : mkind) : bool := match k with Lme | Constant => false | _ => true end.
+
+Definition decl_of (m : model) (d s : Z) : list (string * list nat) :=
+  decl_params (m_kind m) (m_obs m) (Z.to_nat d) (Z.to_nat s)
+              (match m_nclusters m with Some n => Z.to_nat n | None => O end) (Z.to_nat (m_nb_events m)).
+
+Definition wf (m : model) : Prop :=
+  exists fs d s,
+    m_features m = Some fs /\ d = Z.of_nat (List.length fs) /\ (m_dim m = None \/ m_dim m = Some d) /\
+    m_sdim m = Some s /\ (0 <= s <= d - 1)%Z /\
+    stateful_kind (m_kind m) = true /\
+    reload_obs (m_kind m) d s (m_obs m) = Ok (m_obs m) /\
+    (if mkind_eqb (m_kind m) Mixture then exists k, m_nclusters m = Some k /\ (2 <= k)%Z else m_nclusters m = None) /\
+    (if mkind_eqb (m_kind m) Joint then True else m_nb_events m = 1%Z) /\
+    params_fit (decl_of m d s) (m_params m).
+
+(** the parameters as [load_parameters] rebuilds them: declared shape, data cast to float32 *)
+Fixpoint recast (cast32 : Q -> Q) (decl : list (string * list nat)) (ps : list (string * tensor)) : list (string * tensor) :=
+  match decl, ps with
+  | (n, sh) :: dr, (_, t) :: pr => (n, mkT sh (map cast32 (t_data t))) :: recast cast32 dr pr
+  | _, _ => []
+  end.
+
+(** the three extra conditions *)
+Definition default_named (m : model) : Prop := m_name m = kind_name (m_kind m).
+Fixpoint declared_shapes (decl : list (string * list nat)) (ps : list (string * tensor)) : Prop :=
+  match decl, ps with
+  | (_, sh) :: dr, (_, t) :: pr => t_shape t = sh /\ declared_shapes dr pr
+  | _, _ => True
+  end.
+Definition single_precision (cast32 : Q -> Q) (m : model) : Prop :=
+  forall n t, In (n, t) (m_params m) -> map cast32 (t_data t) = t_data t.
